@@ -83,6 +83,12 @@ Theorem C11_strict_rejects_unterminated : forall h pay s t u,
 Proof. exact strict_rejects_unterminated. Qed.
 Print Assumptions C11_strict_rejects_unterminated.
 
+(* every proper prefix of a written Byron address is refused too (an error, never a panic) *)
+Theorem C11_strict_rejects_truncation_byron : forall ig b k, wf_byron b ->
+  (k < length (to_bytes (Byron b)))%nat -> from_bytes_internal ig (firstn k (to_bytes (Byron b))) = Err.
+Proof. exact strict_rejects_truncation_byron. Qed.
+Print Assumptions C11_strict_rejects_truncation_byron.
+
 (* a variable-length field is accepted only with the value of its groups, which is then a u64 *)
 Theorem C11_strict_rejects_overflow : forall bs acc r v k, varnat_decode_go bs acc r = Some (v, k) ->
   v = gval bs acc (k - r) /\ gval bs acc (k - r) < two64.
@@ -245,6 +251,25 @@ Theorem C11_lenient_drops_trailing : forall a junk, wf_address a -> shelley_kind
   embedded_decode (to_bytes a ++ junk) = Ok a.
 Proof. exact lenient_drops_trailing. Qed.
 Print Assumptions C11_lenient_drops_trailing.
+
+(* whatever either parser returns is a well-formed value, hence parse . write . parse = parse *)
+Theorem C11_parsed_wf : forall ig data a, bytes_ok data -> N.of_nat (length data) < 4611686018427387904 ->
+  from_bytes_internal ig data = Ok a -> wf_address a /\ from_bytes (to_bytes a) = Ok a.
+Proof. intros ig data a H1 H2 H3. split; [exact (parsed_wf ig data a H1 H2 H3)|exact (reparse_same ig data a H1 H2 H3)]. Qed.
+Print Assumptions C11_parsed_wf.
+
+(* the judge of the correspondence run, applied to the model's own observations of ANY byte string,
+   reports either Holds or one of the known classes - never an unknown failure; on written
+   addresses it reports Holds *)
+Theorem C11_judge_accepts_model : forall data, bytes_ok data -> N.of_nat (length data) < 4611686018427387904 ->
+  known_only (judge_dec data (model_dec data)).
+Proof. exact judge_dec_accepts_model. Qed.
+Print Assumptions C11_judge_accepts_model.
+
+Theorem C11_judge_holds_on_written : forall a, wf_address a -> N.of_nat (length (to_bytes a)) < 4611686018427387904 ->
+  judge_dec (to_bytes a) (model_dec (to_bytes a)) = Holds.
+Proof. exact judge_dec_holds_on_written. Qed.
+Print Assumptions C11_judge_holds_on_written.
 
 (* non-vacuity of the premises *)
 Example C11_verbatim_premises_satisfiable :
